@@ -1389,7 +1389,10 @@ func ruleArgsPerInvocation(w *World, r *Report, rule string) {
 							guard := false
 							ast.Inspect(body, func(y ast.Node) bool {
 								if ifs, isIf := y.(*ast.IfStmt); isIf && ifs.Cond == cd && len(ifs.Body.List) >= 1 {
-									if br, isBr := ifs.Body.List[len(ifs.Body.List)-1].(*ast.BranchStmt); isBr && br.Tok == token.CONTINUE && !vals[i] {
+									// a skip guard only skips: `if cond { continue }`. A body that does something
+									// with the field first (fills it from another source) is another way of
+									// resolving it, which bypasses the one dispatch on group / name / type
+									if br, isBr := ifs.Body.List[len(ifs.Body.List)-1].(*ast.BranchStmt); isBr && br.Tok == token.CONTINUE && !vals[i] && len(ifs.Body.List) == 1 {
 										guard = true
 									}
 									if _, isRet := ifs.Body.List[len(ifs.Body.List)-1].(*ast.ReturnStmt); isRet && !vals[i] {
@@ -1455,7 +1458,7 @@ func ruleArgsPerInvocation(w *World, r *Report, rule string) {
 // rules under another rule id.
 func reexportC07(w *World, r *Report, rule string, ids ...string) {
 	sub := NewReport(r.Prop, r.Tier, w)
-	for _, id := range []string{"R07.1", "R07.2", "R07.3", "R07.4", "R07.5", "R07.6", "R07.7", "R07.8", "R07.9", "R07.10", "R07.11"} {
+	for _, id := range []string{"R07.1", "R07.2", "R07.3", "R07.4", "R07.5", "R07.6", "R07.7", "R07.8", "R07.9", "R07.10", "R07.11", "R07.12"} {
 		sub.Rule(id, 0, "")
 	}
 	checkC07(w, sub)
@@ -1472,7 +1475,7 @@ func reexportC07(w *World, r *Report, rule string, ids ...string) {
 // ruleLifetimeTableComplete re-exports the table-before-checks part of C07 for C06.
 func ruleLifetimeTableComplete(w *World, r *Report, rule string) {
 	sub := NewReport(r.Prop, r.Tier, w)
-	for _, id := range []string{"R07.1", "R07.2", "R07.3", "R07.4", "R07.5", "R07.6", "R07.7", "R07.8", "R07.9", "R07.10", "R07.11"} {
+	for _, id := range []string{"R07.1", "R07.2", "R07.3", "R07.4", "R07.5", "R07.6", "R07.7", "R07.8", "R07.9", "R07.10", "R07.11", "R07.12"} {
 		sub.Rule(id, 0, "")
 	}
 	checkC07(w, sub)
